@@ -309,19 +309,61 @@ def leanchecker(mods):
 # --------------------------------------------------------------------------------------------
 # line protocol
 
-def lines_proc(cmd, inputs, env=None, timeout=600, cwd=None):
+def lines_proc(cmd, inputs, env=None, timeout=600, cwd=None, idle=None):
     """Feeds one JSON per line, returns list of parsed outputs (None where missing/garbled)
-    plus (returncode, stderr_tail)."""
-    data = "".join(json.dumps(i) + "\n" for i in inputs)
+    plus (returncode, stderr_tail).  A process that is still running after `timeout` seconds, or that has
+    written no complete line for `idle` seconds (when given), is killed: the outputs it had written are
+    returned, the rest is None, the return code is "hung" — the caller sees which op it hung on."""
+    import select
+    import threading
+    data = "".join(json.dumps(i) + "\n" for i in inputs).encode()
     if cwd is None:
         # never run the code under test with /verif (or whatever the caller's directory is) as its
         # working directory: generated configurations may hold relative paths
         cwd = os.path.join(BUILD, "scratch", "cwd")
         os.makedirs(cwd, exist_ok=True)
-    p = subprocess.run(cmd, input=data, stdout=subprocess.PIPE, stderr=subprocess.PIPE, text=True,
-                       env=env, timeout=timeout, cwd=cwd)
+    p = subprocess.Popen(cmd, stdin=subprocess.PIPE, stdout=subprocess.PIPE, stderr=subprocess.PIPE, env=env, cwd=cwd)
+    errbuf = []
+
+    def feed():
+        try:
+            p.stdin.write(data)
+            p.stdin.close()
+        except (BrokenPipeError, OSError, ValueError):
+            pass
+    threading.Thread(target=feed, daemon=True).start()
+    threading.Thread(target=lambda: errbuf.append(p.stderr.read()), daemon=True).start()
+    fd = p.stdout.fileno()
+    buf = []
+    t_end = time.time() + timeout
+    last = time.time()
+    hung = None
+    while True:
+        now = time.time()
+        if now >= t_end:
+            hung = "still running after %d s" % timeout
+        elif idle and now - last >= idle:
+            hung = "no answer for %d s" % idle
+        if hung:
+            p.kill()
+            break
+        r, _, _ = select.select([fd], [], [], 2)
+        if r:
+            chunk = os.read(fd, 1 << 16)
+            if not chunk:
+                break
+            buf.append(chunk)
+            if b"\n" in chunk:
+                last = time.time()
+    p.wait()
+    time.sleep(0.05)
+    stdout = b"".join(buf).decode("utf-8", "replace")
+    if hung:
+        # an unfinished last line is not an answer
+        stdout = stdout[:stdout.rfind("\n") + 1]
+    stderr = (errbuf[0] if errbuf else b"").decode("utf-8", "replace")
     outs = []
-    for ln in p.stdout.split("\n"):
+    for ln in stdout.split("\n"):
         if not ln.strip():
             continue
         try:
@@ -330,10 +372,12 @@ def lines_proc(cmd, inputs, env=None, timeout=600, cwd=None):
             outs.append({"garbled": ln[:200]})
     while len(outs) < len(inputs):
         outs.append(None)
-    return outs, p.returncode, p.stderr[-2000:]
+    if hung:
+        return outs, "hung", ("hung: " + hung + "; " + stderr)[-2000:]
+    return outs, p.returncode, stderr[-2000:]
 
 
-def probe(inputs, binary=None, timeout=600, extra_env=None):
+def probe(inputs, binary=None, timeout=600, extra_env=None, idle=None):
     """Runs ops through the real code.  A process death (abort, stack overflow) is reported on
     the op that was being executed: the batch is resumed after it."""
     binary = binary or ACMED_DEV
@@ -343,13 +387,13 @@ def probe(inputs, binary=None, timeout=600, extra_env=None):
     results = []
     todo = list(inputs)
     while todo:
-        outs, rc, err = lines_proc([binary], todo, env=env, timeout=timeout)
+        outs, rc, err = lines_proc([binary], todo, env=env, timeout=timeout, idle=idle)
         got = [o for o in outs if o is not None]
         results.extend(got)
         if len(got) == len(todo):
             break
-        # process died on input number len(got)
-        results.append({"died": True, "rc": rc, "stderr": err[-300:]})
+        # process died (or was killed because it hung) on input number len(got)
+        results.append({"died": True, "rc": rc, "stderr": err[-300:], **({"hung": True} if rc == "hung" else {})})
         todo = todo[len(got) + 1:]
     return results
 
